@@ -282,12 +282,122 @@ def _wiring(rng, shape: str, n: int) -> list[dict[str, str]]:
     return w
 
 
-def gen_case(rng, p_comb: float = 0.3, max_jobs: int = 40) -> dict:
+def gen_case(rng, p_comb: float = 0.3, max_jobs: int = 40, p_dense: float = 0.5) -> dict:
     for _ in range(50):
-        c = _gen_case(rng, p_comb)
+        c = _gen_dense(rng) if rng.random() < p_dense else _gen_case(rng, p_comb)
         if _spec_jobs(c) <= max_jobs:
             return c
     return c
+
+
+def _gen_dense(rng) -> dict:
+    """The dense stream: chains and fan-ins WITHOUT shared origins in which the non-root nodes have upstream state AND an
+    own splitter (outer / scalar over two fields, or one field) AND a combiner drawn systematically from: a proper subset
+    of the own fields (for a scalar splitter: one field of the zipped pair), all own fields, one inherited axis, all
+    inherited axes, own + inherited mixed, none.  Lists have 1–2 elements so that the cases are cheap."""
+    n = rng.choice([2, 3, 3, 4])
+    nroots = 1 if n == 2 else rng.choice([1, 2, 2])
+    counter = [0]
+
+    def lst(k=None):
+        k = k or rng.choice([1, 2, 2])
+        base = counter[0]
+        counter[0] += 10
+        return [base + i for i in range(k)]
+
+    nodes: list[dict] = []
+    for i in range(n):
+        name = f"N{i}"
+        ins: dict = {}
+        if i < nroots:
+            ups: list[str] = []
+        else:
+            # upstreams with pairwise disjoint origins (the proved class), one field each; the first may take two fields
+            info = analyse({"nodes": nodes})["infos"]
+            cand = [m["name"] for m in nodes]
+            rng.shuffle(cand)
+            ups, seen = [], set()
+            for u in cand:
+                h = set(info[u]["hist"])
+                if info[u]["fin"] and not (h & seen) and len(ups) < rng.choice([1, 1, 2]):
+                    ups.append(u)
+                    seen |= h
+            if not ups:
+                ups = [cand[0]]
+        free = list(F3)
+        rng.shuffle(free)
+        for u in ups:
+            ins[free.pop()] = {"n": u}
+        if ups and len(ups) == 1 and len(free) == 2 and rng.random() < 0.15:
+            ins[free.pop()] = {"n": ups[0]}  # the first (only) upstream through two fields: zipped correctly by the code
+        split = None
+        r = rng.random()
+        if i < nroots or r < 0.85:
+            if len(free) >= 2 and rng.random() < (0.55 if i < nroots else 0.7):
+                op = rng.choice(["outer", "inner", "inner"] if i >= nroots else ["outer", "inner"])
+                f1, f2 = free[0], free[1]
+                if rng.random() < 0.5:
+                    f1, f2 = f2, f1
+                l1 = lst()
+                l2 = [v + 100 for v in l1] if op == "inner" else lst()
+                ins[f1], ins[f2] = {"l": l1}, {"l": l2}
+                split = [op, f1, f2]
+            elif free:
+                f = free[0]
+                ins[f] = {"l": lst()}
+                split = [f]
+            if split and rng.random() < 0.25:
+                for f in split[1:] if len(split) == 3 else split:
+                    ins[f]["w"] = 1
+        for f in F3:
+            if f not in ins and rng.random() < 0.3:
+                ins[f] = {"c": rng.choice([0, 5, "s"])}
+        nd = {"name": name, "in": ins, "split": split, "combine": []}
+        nodes.append(nd)
+        an = analyse({"nodes": nodes})
+        me = an["infos"][name]
+        inv = {a: b for b, a in an["alias"].items()}
+        own, inh = me["own"], me["upAxes"]
+
+        def fields(a):  # the field names that spell axis `a` in a combiner
+            return [a, inv[a]] if a in inv else [a]
+
+        variants = [[]]
+        if own:
+            variants.append(fields(own[0])[:1])  # proper subset of the own fields (one field of a zipped pair / one axis)
+            if len(fields(own[0])) == 2:
+                variants.append(fields(own[0])[1:])  # the other field of the zipped pair
+            variants.append([f for a in own for f in fields(a)])  # all own fields
+            if len(own) == 2:
+                variants.append(fields(own[1]))
+        if inh:
+            variants.append(fields(inh[0]))  # one inherited axis
+            if len(inh) > 1:
+                variants.append(fields(inh[-1]))
+                variants.append([f for a in inh for f in fields(a)])  # all inherited axes
+            if own:
+                variants.append(fields(own[0])[:1] + fields(inh[-1]))  # mixed
+                variants.append(fields(inh[0]) + [f for a in own for f in fields(a)])
+        if i >= nroots or rng.random() < 0.3:
+            # combiners that remove every inherited axis of a node with an own splitter are D37 (outside the class): rare
+            def covers(v):
+                res = {an["alias"].get(c, c) for c in v}
+                return bool(own) and bool(inh) and all(a in res for a in inh)
+
+            pool = variants if rng.random() < 0.15 else [v for v in variants if not covers(v)]
+            nd["combine"] = list(rng.choice(pool if rng.random() < 0.85 else [[]]))
+            if i == n - 1 and own and own[0] in inv and rng.random() < 0.45:
+                # the last node may combine ONE field of its zipped pair (in the class: nothing consumes it); the code has to
+                # close the combiner over the pair (`_current_combiner_all`) — with or without inherited axes next to it
+                nd["combine"] = [rng.choice(fields(own[0]))] + ([f for f in fields(inh[0])] if len(inh) > 1 and rng.random() < 0.3 else [])
+        # a partially combined zip must not feed another node (D29, outside the class): keep it for the last node only
+        if i < n - 1 and any((a in nd["combine"]) != (b in nd["combine"]) for b, a in an["alias"].items()):
+            nd["combine"] = [f for c in nd["combine"] for f in fields(an["alias"].get(c, c))]
+            nd["combine"] = list(dict.fromkeys(nd["combine"]))
+    outs = [nodes[-1]["name"]]
+    if n > 2 and rng.random() < 0.4:
+        outs.append(rng.choice([m["name"] for m in nodes[:-1]]))
+    return {"nodes": nodes, "out": outs, "shape": "dense"}
 
 
 def _gen_case(rng, p_comb: float) -> dict:
@@ -551,6 +661,15 @@ def run_cases(ctx, cases, label="generated"):
             for k2 in ("shared", "laterMulti", "combAllPrev", "partialZipFeeds", "nameClash"):
                 if fl[k2]:
                     ctx.count(f"outside:{k2}")
+        # density of the node kind the state machinery is most delicate for
+        an_i = analyse(c)["infos"]
+        for nd in c["nodes"]:
+            i2 = an_i[nd["name"]]
+            if i2["ups"] and i2["own"]:
+                kind2 = "none" if not nd.get("combine") else (
+                    "own" if all(a in i2["own"] for a in i2["comb"]) else ("inherited" if all(a in i2["upAxes"] for a in i2["comb"]) else "mixed"))
+                zipped = nd["split"][0] == "inner"
+                ctx.count(f"node:upstream+own-{'scalar' if zipped else ('outer' if len(nd['split']) == 3 else 'single')}+comb-{kind2}" + (":in-class" if fl["inClass"] else ""))
         ctx.extra["in_class_cases"] = ctx.extra.get("in_class_cases", 0) + (1 if fl["inClass"] else 0)
         ctx.extra["outside_class_cases"] = ctx.extra.get("outside_class_cases", 0) + (0 if fl["inClass"] else 1)
         if not fl["inClass"] and spec_ok:
